@@ -1,13 +1,16 @@
 import json, os, subprocess
 
 SPEC = {
-    "lean_modules": ["SemaModel.C05.Props"],
+    "lean_modules": ["SemaModel.C05.Props", "SemaModel.C05.Formula"],
     "lean_dirs": ["SemaModel/C05"],
     "harness": "c05",
     "harness_args": {"quick": ["-n", 900, "-q", 6], "thorough": ["-n", 6000, "-q", 8]},
     "level": "proof",
-    "tie": "T3: the hand-written model of shard/index/text/text.go (+ the text arm of dispatch.go) is run by the Lean driver on the same batches and queries as a real shard (bbolt file and memory backend alternate); after every batch the real text index bucket (_numDocuments, t<term>s, d<id>) is dumped and compared with the model state, every query answer (ids, order, _score/_hybridScore bit patterns) is compared with the model's answer, the float32 scores being handed to the model as opaque patterns taken from the real code. The property itself is also evaluated directly on every real answer against a corpus kept by the harness and the real bleve analyser. Histories: text-level scenarios (go/cmd/c05/scenarios.txt) replayed first, then random histories whose rewrites are partly derived from the text a point has or had (same tokens / same multiset / same vocabulary and length with frequencies moved / terms exchanged or renamed / one occurrence more or less / every tf kept / another document's text / an earlier text of the point, texts rotating between documents, deleted points coming back with their text); what each rewrite preserved is measured and reported in the distribution. After every batch the stored bucket is also compared with the corpus statistics computed from scratch, and every term on which they differ is queried (the verdict still comes from the property oracle on the real answer).",
+    "tie": "T1 (formula): SemaModel/Generated/TextScore.lean and Hybrid.lean are regenerated on every run from the scoring statements of indexText.Search (start value, tf, idf, the whole body of the loop over the query terms, the weight default, HybridScore) with floats as symbolic expression trees (Go.FExpr); ScoreOps.ofGenerated is the model's abstract score arithmetic instantiated with them, C05_score_generated / C05_match_generated compose the generated code with the structural theorem (score = sum over the traversed term order of (count/length) * float32(log10(N/(df+1))), hybrid = score * weight), and the driver evaluates the generated expression on the MODEL's index state against every real _score / _hybridScore (scorecheck lines: some order of the term set, at most 1 float32 ulp for the C library's log10 - measured 0; hybrid bit for bit). "
+           "T3: the hand-written model of shard/index/text/text.go (+ the text arm of dispatch.go) is run by the Lean driver on the same batches and queries as a real shard (bbolt file and memory backend alternate); after every batch the real text index bucket (_numDocuments, t<term>s, d<id>) is dumped and compared with the model state, every query answer (ids, order, _score/_hybridScore bit patterns) is compared with the model's answer, the float32 scores being handed to the model as opaque patterns taken from the real code. The property itself is also evaluated directly on every real answer against a corpus kept by the harness and the real bleve analyser. Histories: text-level scenarios (go/cmd/c05/scenarios.txt) replayed first, then random histories whose rewrites are partly derived from the text a point has or had (same tokens / same multiset / same vocabulary and length with frequencies moved / terms exchanged or renamed / one occurrence more or less / every tf kept / another document's text / an earlier text of the point, texts rotating between documents, deleted points coming back with their text); what each rewrite preserved is measured and reported in the distribution. After every batch the stored bucket is also compared with the corpus statistics computed from scratch, and every term on which they differ is queried (the verdict still comes from the property oracle on the real answer).",
     "required_theorems": [
+        # formula theorems (Formula.lean; notes/T1ext.md section 8): the scoring expressions generated from text.go, composed with the structural theorem
+        "Sema.C05.C05_score_step", "Sema.C05.C05_tf_formula", "Sema.C05.C05_idf_formula", "Sema.C05.C05_score0_formula", "Sema.C05.C05_score_generated", "Sema.C05.C05_match_ordered", "Sema.C05.C05_score_formula", "Sema.C05.C05_hybrid_formula", "Sema.C05.C05_weight_default", "Sema.C05.C05_match_generated",
         "Sema.C05.C05_maintain", "Sema.C05.C05_flush", "Sema.C05.C05_history", "Sema.C05.C05_stats",
         "Sema.C05.C05_inv_unique", "Sema.C05.C05_scratch", "Sema.C05.C05_order", "Sema.C05.C05_order_distinct",
         "Sema.C05.C05_dup_witness", "Sema.C05.C05_match", "Sema.C05.C05_empty_query",
@@ -15,6 +18,7 @@ SPEC = {
         "Sema.C05.C05_preserved_statistics_witness",
     ],
     "trusted_base": [
+        "formula theorems fix the expression structure only: IEEE rounding and the value of log10 are not interpreted; the loop over the query terms ranges over a Go map (order undefined): only its body is translated, theorems quantify over the order; `termSetItem, _ := index.setCache.Get(term)` is abstracted (the posting set is an opaque value of which only GetCardinality() is read)",
         "bleve's `standard` analyser is an arbitrary fixed function Text -> List Term shared by documents and queries (the harness runs the real one and hands the token lists to the model)",
         "roaring bitmaps are finite sets; FastAnd/FastOr of zero bitmaps are empty; msgpack round-trips the document record",
         "the two ItemCaches of one indexText are modelled by their write-back contract (reads see earlier writes of the same batch, Flush persists all of them; an empty posting is deleted) - exercised by comparing the bucket after every batch",
